@@ -3,7 +3,8 @@
 the `checks_run` / `caught_by` fields of its meta.json and seeded/README.md.
 usage: tools/recheck_seeded.py [name-prefix ...]      (extra checks per seed: meta["also_run"])"""
 import json, os, subprocess, sys, glob
-ROOT = "/verif/seeded"
+VROOT = os.path.dirname(os.path.dirname(os.path.abspath(__file__)))
+ROOT = os.environ.get("SEEDED_OUT") or os.path.join(VROOT, "seeded")
 def main():
     sel = sys.argv[1:]
     rows = []
@@ -15,8 +16,8 @@ def main():
         if not sel or any(name.startswith(s) for s in sel):
             prop = meta.get("property", name.split("-")[0])
             checks = [prop] + [c for c in meta.get("also_run", []) if c != prop]
-            p = subprocess.run(["/verif/tools/try_patch.sh", os.path.join(d, "patch.diff")] + checks,
-                               cwd="/verif", stdout=subprocess.PIPE, stderr=subprocess.STDOUT, text=True)
+            p = subprocess.run([os.path.join(VROOT, "tools", "try_patch.sh"), os.path.join(d, "patch.diff")] + checks,
+                               cwd=VROOT, stdout=subprocess.PIPE, stderr=subprocess.STDOUT, text=True)
             res = {}
             for line in p.stdout.splitlines():
                 if line.startswith("== "):
